@@ -1109,6 +1109,11 @@ func heldBy(ip *IP, podID string) bool {
 // before this request (heldV4/heldV6) stays with the pod when the request is cancelled,
 // only what this request took is handed back.
 func (l *Local) commitHeld(ctx context.Context, respCh chan *AllocResp, ipv4, ipv6 *IP, podID string, heldV4, heldV6 bool) {
+	// the lock may have been dropped since held was decided: an address the pod gave up
+	// meanwhile (DEL, pod GC) is taken anew by this request, not held from before
+	heldV4 = heldV4 && heldBy(ipv4, podID)
+	heldV6 = heldV6 && heldBy(ipv6, podID)
+
 	var ip types.IPSet2
 	if ipv4 != nil {
 		ip.IPv4 = ipv4.ip
